@@ -32,6 +32,8 @@ def run(ctx, db, tier):
     delivered_matches_position(ctx, db)
     copy_continues(ctx, db)
     failed_publish_consistent(ctx, db)
+    wake_means_news(ctx, db)
+    kick_finds_live(ctx, db)
 
 
 def advance_before_read(ctx, db):
@@ -576,3 +578,84 @@ def failed_publish_consistent(ctx, db):
             ctx.ob(rid, f, e['loc'], True, 'single-element insertion (strong exception guarantee of std::deque at either end)')
     if n == 0:
         raise Broken('publisher::queue::push inserts nothing into the window: anchor changed')
+
+
+def wake_means_news(ctx, db):
+    """a subscriber that is woken finds either a new value or the closed flag; woken on an open publisher with nothing new it reads "nothing
+    there" as the end of the stream.  So the wake-up pass runs with a count of zero only for close()"""
+    rid = ctx.rule('C16.wake-means-news', 'GUARDED', 'every call of push_lk(lk, n) in the publisher queue: n is a positive constant, or tested non-zero on that path, or the closed flag was set before '
+                   '(close): an empty publish (empty range) does not wake anybody', floor=3)
+    T = htracer(db, extra=lambda c, e, callee: False)
+    seen = set(); sites = {}
+    for f in db.all_instances():
+        if not f['nname'].startswith(PQ + '::') or f['key'] in seen or f['nname'].endswith('::push_lk'):
+            continue
+        if not any(e.k == 'call' and norm(e.get('callee')) == PQ + '::push_lk' for e in f.events()):
+            continue
+        seen.add(f['key'])
+        trs = [t for t in T.traces(f) if live(t)]
+        ctx.paths(rid, len(trs))
+        for tr in trs:
+            nz = set(); closed = False
+            for i, it in enumerate(tr):
+                if it.k == 'branch':
+                    nl = nullness(it)
+                    if nl:
+                        (nz.add if nl[1] else nz.discard)(nl[0])
+                    m = re.fullmatch(r'\((.+) (!=|>) 0\)', it.path or '')
+                    if m and it.val:
+                        nz.add(m.group(1))
+                    m = re.fullmatch(r'\((.+) == 0\)', it.path or '')
+                    if m and not it.val:
+                        nz.add(m.group(1))
+                elif it.k == 'write' and field_of(it) == PQ + '::_closed' and it.get('const') == 1:
+                    closed = True
+                elif it.k == 'call' and norm(it.get('callee')) == PQ + '::push_lk' and it.get('depth', 0) == 0:
+                    a = (it.get('args') or [{}, {}])
+                    a1 = a[1] if len(a) > 1 else {}
+                    c = a1.get('const'); p_ = a1.get('path') or ''
+                    ok = (c is not None and c >= 1) or (c == 0 and closed) or (c is None and (p_ in nz or origin_in_trace(tr, i, p_)[0] in nz or closed))
+                    key = (f['key'], it.get('loc'))
+                    sites.setdefault(key, [f, True, p_, None])
+                    if not ok and sites[key][1]:
+                        sites[key][1] = False; sites[key][3] = tr
+    if not sites:
+        raise Broken('no caller of publisher::queue::push_lk found: anchor changed')
+    for (k, loc), (f, ok, p_, tr) in sorted(sites.items()):
+        ctx.ob(rid, f, loc, ok, 'push_lk(%s) in %s only with something to announce' % (p_, f['nname'].split('::')[-1]),
+               desc='%s runs the wake-up pass with a count that may be zero on an open publisher: waiting subscribers take the empty wake-up for the end of the stream' % f['nname'] if not ok else None,
+               trace=fmt_trace(tr) if tr else None)
+
+
+def kick_finds_live(ctx, db):
+    """registration slots are recycled: a released slot keeps the address of the subscriber that left, and a new subscriber may be built at that
+    very address and get another slot.  Whoever looks a subscriber up by address must consider live slots only"""
+    rid = ctx.rule('C16.kick-finds-live-registration', 'GUARDED', 'kick_lk (its search predicate or loop): the comparison of a registration\'s subscriber address with the one to kick is evaluated only '
+                   'for a registration already tested _used on that path: a stale address in a released slot never shadows the live registration', floor=1)
+    T = htracer(db)
+    bodies = []
+    for f in db.need(PQ + '::kick_lk')[:1]:
+        bodies = [f] + [g for g in helper_bodies(db, f) if g['nname'] != PQ + '::push_lk'] + list(lambdas_of(db, PQ + '::kick_lk'))
+    seen = set(); n = 0
+    for g in bodies:
+        if g['key'] in seen:
+            continue
+        seen.add(g['key'])
+        if not any(e.k == 'cmp' and '_sub' in ((e.get('lhs') or '') + (e.get('rhs') or '')) for e in g.events()):
+            continue
+        bad = None
+        for tr in T.traces(g):
+            used = set()
+            for it in tr:
+                if it.k == 'branch' and re.search(r'(\.|->)_used$', it.path or ''):
+                    (used.add if it.val else used.discard)(re.sub(r'(\.|->)_used$', '', it.path))
+                elif it.k == 'cmp' and re.search(r'(\.|->)_sub$', (it.get('lhs') or '')) or (it.k == 'cmp' and re.search(r'(\.|->)_sub$', (it.get('rhs') or ''))):
+                    side = it.get('lhs') if re.search(r'(\.|->)_sub$', it.get('lhs') or '') else it.get('rhs')
+                    obj = re.sub(r'(\.|->)_sub$', '', side)
+                    n += 1
+                    if obj not in used:
+                        bad = bad or tr
+        ctx.ob(rid, g, g['key'], bad is None, 'the address comparison is made for used registrations only', desc='kick compares the subscriber address of a registration that was not tested _used: a released slot with a stale address shadows the live one',
+               trace=fmt_trace(bad) if bad else None)
+    if n == 0:
+        raise Broken('kick_lk: no comparison with the subscriber to kick found')
